@@ -501,10 +501,51 @@ func c03SizingBoundaryCfg(r *vlib.Rand) *pmmvConfig {
 	return cfg
 }
 
+// c03SkippedPoolCfg: the kernel image fills one whole available region (the boot allocator takes nothing from it) and
+// the regions in front of it are so small that the early-boot allocations continue behind it.
+func c03SkippedPoolCfg(r *vlib.Rand) *pmmvConfig {
+	cfg := &pmmvConfig{KMode: "cover", Style: "kernel-fills-a-region-between-early-allocations", Decoys: r.Intn(3)}
+	cursor := uint64(0x100000)
+	gap := func() {
+		switch r.Intn(3) {
+		case 0:
+			l := uint64(r.Range(1, 5)) * pmmvPage
+			cfg.Regions = append(cfg.Regions, pmmvRegion{Addr: cursor, Len: l, Type: 2})
+			cursor += l
+		case 1:
+			cursor += uint64(r.Range(1, 5)) * pmmvPage
+		}
+	}
+	add := func(n int) {
+		cfg.Regions = append(cfg.Regions, pmmvRegion{Addr: cursor, Len: uint64(n) * pmmvPage, Type: 1})
+		cursor += uint64(n) * pmmvPage
+		gap()
+	}
+	for i, n := 0, r.Range(0, 2); i < n; i++ {
+		add(r.Range(1, 2))
+	}
+	cfg.KRegion = len(cfg.Regions)
+	cfg.KStart = cursor
+	k := r.Range(1, 6)
+	add(k)
+	cfg.KEnd = cfg.KStart + uint64(k)*pmmvPage
+	if r.Bool() {
+		cfg.KEnd -= uint64(r.Range(1, 4095))
+	}
+	for i, n := 0, r.Range(0, 2); i < n; i++ {
+		add(r.Range(1, 3))
+	}
+	add(r.Range(40, 300))
+	if r.Bool() {
+		add(r.Range(1, 200))
+	}
+	return cfg
+}
+
 func TestVerifC03(t *testing.T) {
 	run := vlib.Start(t, "C03")
 	defer run.Finish()
-	run.SetRule("case = generated memory map + kernel placement (generator shared with C01; in half of the cases every available region has a word-boundary frame count 1,2,63,64,65,127,128,129,191,192,193,64k-1,64k,64k+1) + mode (normal | reserveRegionFn fails | mapFn fails on call 0-2 | one region of 2^20..2^31 frames with a failing reservation, sizing only); 1 case in 30 is a sizing-boundary map: 2-8 pools with odd frame counts whose bookkeeping ends 8 bytes past a page multiple; normal mode: layout and sizing check, bad frees (frame 0, InvalidFrame, gaps, non-available regions, partial pages, just before/past each pool, padding bits, never-allocated and twice-freed frames) with a full bitmap snapshot around each, partial allocation, drain to OOM, free of subsets and re-drain, accounting compared after every step; non-trivial = Init succeeded, >=2 available regions with whole frames, >=1 word-boundary region, drain reached OOM and >=1 re-drain was compared; distinct = fingerprint of (memory map, kernel placement, mode)")
+	run.SetRule("case = generated memory map + kernel placement (generator shared with C01; in half of the cases every available region has a word-boundary frame count 1,2,63,64,65,127,128,129,191,192,193,64k-1,64k,64k+1) + mode (normal | reserveRegionFn fails | mapFn fails on call 0-2 | one region of 2^20..2^31 frames with a failing reservation, sizing only); 1 case in 30 is a sizing-boundary map: 2-8 pools with odd frame counts whose bookkeeping ends 8 bytes past a page multiple, and 1 in 30 a map where the kernel fills a whole region that lies between regions of 1-3 frames, so that the early-boot allocations are taken in front of and behind a region the boot allocator skips; normal mode: layout and sizing check, bad frees (frame 0, InvalidFrame, gaps, non-available regions, partial pages, just before/past each pool, padding bits, never-allocated and twice-freed frames) with a full bitmap snapshot around each, partial allocation, drain to OOM, free of subsets and re-drain, accounting compared after every step; non-trivial = Init succeeded, >=2 available regions with whole frames, >=1 word-boundary region, drain reached OOM and >=1 re-drain was compared; distinct = fingerprint of (memory map, kernel placement, mode)")
 	run.Assume("mapFn and reserveRegionFn are stubbed; the bookkeeping memory is a guard-paged host arena of exactly the requested (page-rounded) size, so over-runs are caught at page granularity and by the layout check at byte granularity")
 	run.Assume("frames reserved at hand-over (kernel image, early-boot frames) are never passed to FreeFrame: the statement leaves that undefined; which of the two errors a rejected free returns is counted, not demanded")
 
@@ -567,6 +608,8 @@ func TestVerifC03(t *testing.T) {
 		cfg := pmmvGenConfig(r.Fork(1), pmmvGenOpts{MaxFrames: mf, Big: big, ForceBoundary: r.Intn(2) == 0, Huge: mode == "huge"})
 		if mode != "huge" && r.Intn(30) == 0 {
 			cfg = c03SizingBoundaryCfg(r.Fork(3))
+		} else if mode != "huge" && r.Intn(30) == 0 {
+			cfg = c03SkippedPoolCfg(r.Fork(4))
 		}
 		one(c, cfg, mode, r.Fork(2))
 	})
